@@ -2,6 +2,7 @@
 from ._std import *
 from ..rules import intervals, typestate
 from ..rules.common import hir_walk, node_line, fold, find_trait_fn
+from ..facts import fixture_facts
 
 EXPLANATION = (
     "Static typestate (R6), error-discipline (R7) and limit-table (R1) rules on the type-checked HIR exported from "
@@ -205,6 +206,12 @@ def narrowing(run, fx):
     run.rule(rule, "no numeric cast silently changes a caller-controlled value: a float->integer or integer->integer cast whose "
                    "operand is an exactly known caller-controlled range must be able to represent that whole range (otherwise "
                    "the value saturates or wraps and a different, in-range result is produced instead of a RangeError)")
+    # controls: the carry narrowed with `as` in the fixture crate must be reported, its range-checked twin must not
+    ceng = intervals.analyse(fixture_facts("r9_control"), ("r9_control",))
+    flagged = {p.rsplit("::", 1)[-1] for (p, k) in ceng.alarms if k[0] == "narrowing"}
+    run.control(rule, "bad_narrow" in flagged, "fixtures/r9_control: bad_narrow must be reported (got %s)" % sorted(flagged))
+    run.check("good_narrow" not in flagged, rule, "negative-control", "the range-checked cast of the control crate is not reported",
+              "the engine reports the guarded cast of the control crate")
     res = intervals.results(fx)
     sites = [x for x in res["sites"] if x["kind"] == "narrowing"]
     run.analysed["narrowing_casts"] = len(sites)
